@@ -195,6 +195,10 @@ func Counter.set
   opt debts-change
   requires c != nil && unlocked(c.valueMutex)
   modifies monitor(c)
+  -- subscribers are notified inside the critical section that made the change: notifications of two changes reach a
+  -- subscriber in the order of the changes (a forwarding subscriber - the worker-pool group counters - would otherwise
+  -- see a decrement before the increment it belongs to)
+  ghost before call Counter.notifySubscribers: assert held(c.valueMutex)
   ghost before unlock: owe valueIncreasedCond if oldValue < newValue
   ghost before unlock: owe valueDecreasedCond if oldValue > newValue
   ghost before unlock: c.lateInc = (oldValue < newValue ? 0 : c.lateInc)
@@ -213,6 +217,7 @@ func Counter.update
   opt assume-no-overflow
   requires c != nil && unlocked(c.valueMutex)
   modifies monitor(c)
+  ghost before call Counter.notifySubscribers: assert held(c.valueMutex)
   ghost before unlock: owe valueIncreasedCond if delta >= 1
   ghost before unlock: owe valueDecreasedCond if delta <= 0 - 1
   ghost before unlock: c.lateInc = (delta >= 1 ? 0 : c.lateInc)
